@@ -999,7 +999,7 @@ def run(pid, tier, repo_root=None):
 if __name__ == "__main__":
     import sys
 
-    for pid in [a for a in sys.argv[1:] if not a.startswith("-")] or ["C02", "C05", "C06", "C12", "C14", "C15", "C20"]:
+    for pid in [a for a in sys.argv[1:] if not a.startswith("-")] or ["C02", "C04", "C05", "C06", "C07", "C08", "C12", "C14", "C15", "C16", "C17", "C18", "C20"]:
         obs = run(pid, "quick")
         bad = [o for o in obs if o["verdict"] != "discharged"]
         print(pid, len(obs), "obligations,", len(bad), "not discharged")
